@@ -25,6 +25,7 @@ fn main() {
         "pubkey" => auth::run_pubkey(&args),
         "clientgroups" => auth::run_clientgroups(&args),
         "adversary" => auth::run_adversary(&args),
+        "degenerate" => auth::run_degenerate(&args),
         "norm" => aux::run_norm(&args),
         "pin" => aux::run_pin(&args),
         "integrity" => aux::run_integrity(&args),
